@@ -68,7 +68,12 @@ def construction_ranges(rep, adt, inv, allow_unchecked_from=()):
                     iv.assume(pc)
                     r = iv.range(sv[3][0])
                     if not (inv[0] <= r[0] and r[1] <= inv[1]):
-                        bad.append((r, S.show(sv[3][0])[:200]))
+                        # relational guards (e.g. `by <= MAX - self.0`): decide in the octagon domain, assuming the
+                        # invariant for values that already carry it (inductive step)
+                        from ..intlin import entails_range
+                        er = entails_range(S, pc, sv[3][0], inv[0], inv[1], lt, {adt: inv})
+                        if not er:
+                            bad.append((r, S.show(sv[3][0])[:200]))
         key = "%s in %s" % (name, root.desc["qpath"].replace(ZA + "::", ""))
         if is_preserving_copy(prog, root, adt):
             rep.ok("invariant-established", key + " (copy)", sample="field-wise copy", nontrivial=False)
